@@ -49,8 +49,17 @@ enum Trust
   T_WRONG_SYS_RIGHT, // caFile = CA B, but the system store contains CA A
   T_SYS_RIGHT        // no caFile, the system store contains CA A (system roots are the configured anchors)
 };
-enum SrvCert { SC_VALID, SC_SELFSIGNED, SC_EXPIRED, SC_WRONGNAME, SC_MISMATCH };
-enum CliCert { CC_NONE, CC_VALID /*by CA A*/, CC_UNTRUSTED /*valid, by CA B*/, CC_EXPIRED /*by CA A*/, CC_SELFSIGNED };
+enum SrvCert { SC_VALID, SC_SELFSIGNED, SC_EXPIRED, SC_WRONGNAME, SC_MISMATCH, SC_NOTYET /*notBefore = now+1d*/, SC_NOTYET_FAR /*now+10y*/ };
+enum CliCert
+{
+  CC_NONE,
+  CC_VALID /*by CA A*/,
+  CC_UNTRUSTED /*valid, by CA B*/,
+  CC_EXPIRED /*by CA A*/,
+  CC_SELFSIGNED,
+  CC_NOTYET /*by CA A, notBefore = now+1d*/,
+  CC_NOTYET_FAR /*by CA A, now+10y*/
+};
 enum Ver { V10, V11, V12, V13 };
 enum MinVer { MV_0, MV_10, MV_12, MV_13 };
 enum By { BY_IP, BY_NAME };
@@ -77,8 +86,10 @@ inline const char *valueName(int dim, int v)
   static const char *kind[] = {"openssl", "plaintext", "garbage"};
   static const char *onoff[] = {"off", "on"};
   static const char *trust[] = {"caA", "caB", "none", "caB+sysStoreHasCaA", "sysStoreHasCaA"};
-  static const char *sc[] = {"validByCaA", "selfsigned", "expiredByCaA", "wrongnameByCaA", "keymismatch"};
-  static const char *cc[] = {"none", "validByCaA", "validByCaB", "expiredByCaA", "selfsigned"};
+  static const char *sc[] = {"validByCaA", "selfsigned", "expiredByCaA", "wrongnameByCaA", "keymismatch", "notYetValid+1dByCaA",
+                             "notYetValid+10yByCaA"};
+  static const char *cc[] = {"none", "validByCaA", "validByCaB", "expiredByCaA", "selfsigned", "notYetValid+1dByCaA",
+                             "notYetValid+10yByCaA"};
   static const char *ver[] = {"TLS1.0", "TLS1.1", "TLS1.2", "TLS1.3"};
   static const char *mv[] = {"0", "TLS1.0", "TLS1.2", "TLS1.3"};
   static const char *by[] = {"127.0.0.1", "localhost"};
@@ -233,6 +244,8 @@ inline const Identity *serverIdentity(int sc)
   case SC_SELFSIGNED: return &p.srvSelfSigned;
   case SC_EXPIRED: return &p.srvExpired;
   case SC_WRONGNAME: return &p.srvWrongName;
+  case SC_NOTYET: return &p.srvNotYet;
+  case SC_NOTYET_FAR: return &p.srvNotYetFar;
   default: return &p.srvMismatchFiles;
   }
 }
@@ -245,6 +258,8 @@ inline const Identity *clientIdentity(int cc)
   case CC_UNTRUSTED: return &p.cliUntrusted;
   case CC_EXPIRED: return &p.cliExpired;
   case CC_SELFSIGNED: return &p.cliSelfSigned;
+  case CC_NOTYET: return &p.cliNotYet;
+  case CC_NOTYET_FAR: return &p.cliNotYetFar;
   default: return nullptr;
   }
 }
